@@ -195,6 +195,9 @@ func (e *Exec) runFrame(fr *frame) {
 		}
 		fr.visits[b.Index]++
 		if e.inInit == 0 && fr.visits[b.Index] > e.unwindLimit(fr.fn) {
+			if _, on := e.ghost["hangviolation"]; on {
+				panic(hangPanic{fmt.Sprintf("%s block %d", fr.fn, b.Index)})
+			}
 			panic(pathEnd{fmt.Sprintf("unwind:%s block %d", fr.fn, b.Index)})
 		}
 		// phis first, simultaneously
